@@ -74,30 +74,44 @@ pub fn run(ctx: &mut Ctx) {
     o.strip_max = 300;
     let total = ctx.n;
     let seed = ctx.seed;
+    // threads step: the container under test is used inside a rayon pool (bands are made by splitting the views),
+    // the plain reference in a 1-thread pool
+    let threads_step = ctx.sub == "threads";
+    if threads_step {
+        assert!(firv::pool::enabled(), "the threads step needs the rayon feature");
+        o.max_side = 110;
+    }
     ctx.drive(
         total,
         |_, idx| Some(gen_ccase(seed, "C13", idx, &o, false)),
         describe,
         |cc, stats, viols| {
-            if cc.op == 0 {
-                with_px!(cc.c.pt, P => exec_resize::<P>(cc, stats, viols))
-            } else {
-                with_alpha_px!(cc.c.pt, P => exec_alpha::<P>(cc, stats, viols))
+            let threads = if threads_step { [2usize, 3, 4, 8][(cc.c.sw as usize + cc.c.dh as usize) % 4] } else { 0 };
+            let body = |stats: &mut Stats, viols: &mut Vec<Viol>| {
+                if cc.op == 0 {
+                    with_px!(cc.c.pt, P => exec_resize::<P>(cc, stats, viols, threads))
+                } else {
+                    with_alpha_px!(cc.c.pt, P => exec_alpha::<P>(cc, stats, viols))
+                }
+            };
+            if threads_step {
+                stats.seen("thread_pool_sizes", threads);
             }
+            body(stats, viols)
         },
     );
 }
 
-fn exec_resize<P: Px>(cc: &CCase, stats: &mut Stats, viols: &mut Vec<Viol>) {
+fn exec_resize<P: Px>(cc: &CCase, stats: &mut Stats, viols: &mut Vec<Viol>, threads: usize) {
     let c = &cc.c;
     let src = make_pixels::<P>(c.sw, c.sh, &c.content, c.alpha.as_ref());
     let opts = c.options();
-    let reference = resize_vec::<P>(&src, c.sw, c.sh, c.dw, c.dh, &opts, cc.ext);
+    let reference = if threads > 0 { firv::pool::install(1, || resize_vec::<P>(&src, c.sw, c.sh, c.dw, c.dh, &opts, cc.ext)) } else { resize_vec::<P>(&src, c.sw, c.sh, c.dw, c.dh, &opts, cc.ext) };
     let mut sb = Backing::<P>::new(cc.sp, c.sw, c.sh, 0x1111);
     sb.put(&src);
     let mut db = Backing::<P>::new(cc.dp, c.dw, c.dh, 0x2222);
     let mut r = resizer(cc.ext);
-    let got = resize_through::<P>(&mut r, &sb, cc.sk, &mut db, cc.dk, &opts);
+    let got = if threads > 0 { firv::pool::install(threads, || resize_through::<P>(&mut r, &sb, cc.sk, &mut db, cc.dk, &opts)) } else { resize_through::<P>(&mut r, &sb, cc.sk, &mut db, cc.dk, &opts) };
     stats.seen("container_pairs", format!("{:?}->{:?}", cc.sk, cc.dk));
     stats.nontrivial(&describe(cc));
     match (reference, got) {
